@@ -28,7 +28,7 @@ RULE = (
 ASSUMPTIONS = ["a non-eval sync replaces the whole parameter/attribute, name included (pinned by the repository's own tests)",
                "names unique per scope except deliberate re-binding; function bodies hold no named definitions"]
 CORE_ALLOWED = ()
-FRONTIER_KNOBS = ("kwarg_out", "valued_input", "cross_kind", "bad_address", "out_fn_has_defaults", "module_doc", "valued_same_name")
+FRONTIER_KNOBS = ("valued_input", "cross_kind", "bad_address", "out_fn_has_defaults", "module_doc", "valued_same_name")
 FLOORS = {"pairs>=2": 0.05, "wrap": 0.1, "eval": 0.02}
 WRAPS = (None, None, "Optional[{output_param}]", "Optional[Union[{output_param}, str]]")
 
@@ -95,9 +95,7 @@ def _case(draw, knob):
         p, k = l
         if p[-1] in ("self", "cls"):
             return False
-        if knob == "kwarg_out":
-            return k == "kwarg"
-        return k in ARGK or k in ATTRK
+        return k in ARGK or k in ATTRK or k == "kwarg"
 
     ins = [l for l in ilocs if ok_in(l)]
     outs = [l for l in olocs if ok_out(l)]
@@ -134,8 +132,8 @@ def _case(draw, knob):
         if knob != "cross_kind" and not ev:
             # like for like: argument -> argument, attribute -> attribute (cross-kind replacement is a knob)
             cands = [o for o in cands if (o[1] in ARGK) == (i[1] in ARGK)] if knob != "valued_input" else cands
-        if knob != "out_fn_has_defaults":
-            # shapes of open findings are excluded by construction everywhere but in their own frontier budget
+        if knob != "out_fn_has_defaults" and i[1] == "ann" and progs.model_resolve(itree, i[0])[0].value is not None:
+            # a VALUED assignment onto an argument of a function with defaults is the shape of finding KF-Y06
             cands = [o for o in cands if not (o[1] in ARGK and _method_with_defaults(otree, o[0]))]
         if not cands:
             continue
